@@ -329,6 +329,10 @@ func registerStdModels(e *Engine) {
 		return ""
 	}
 	_ = os.Getenv
+	// the node's host name: a fixed name (nothing galaxy computes depends on its value beyond selecting the node's pods)
+	e.models["os.Hostname"] = func(fr *frame, fn *ssa.Function, args []value) value {
+		return tuple{"verif-node", iface{}}
+	}
 
 	// runtime helpers used for log decoration only
 	e.models["runtime.Caller"] = func(fr *frame, fn *ssa.Function, args []value) value {
